@@ -21,7 +21,7 @@ NAMESPACE = 'HdVerif.C14'
 DRIVER = 'Drivers/C14.lean'
 RULE = ('one case = one history: a construction (constructor / from_sequence / ContentItem.ContentSequence setter) of a '
         'root, non-root SR or non-SR sequence from 0..4 items followed by 1..15 operations drawn from append, extend, '
-        'insert (any position), setitem (index / slice incl. extended), delitem (index / slice), +=, pop, remove, '
+        '(argument a list or a ContentSequence with any flags), insert (any position), setitem (index / slice incl. extended), delitem (index / slice), +=, pop, remove, '
         'reverse, clear, continue-on-find-result, continue-on-get_nodes-result; items share a 4-name alphabet (equal '
         'names may differ in code meaning), carry or lack a relationship type, and have a unique ObservationUID unless '
         'deliberately duplicated (same object or equal copy); after every step list, find(n) for all names, index/in '
@@ -73,6 +73,22 @@ def _gen_item(r, kind, st, p_bad=0.15, init=False):
     return d
 
 
+def _gen_bulk(r, op, kind, st, p_bad, sizes):
+    """extend / += : the argument is a plain list or (35 %) a ContentSequence of ANY kind (root / SR / non-SR flags),
+    holding items its own constructor accepts -- which need not obey the rule of the receiving sequence."""
+    if r.random() < 0.35:
+        akind = r.choice(['root', 'sr', 'nonsr', kind])
+        xs = [_gen_item(r, akind, st, 0.0, init=True) for _ in range(r.choice(sizes))]
+        for d in xs:
+            d.pop('dup', None)
+            if akind == 'root':
+                d['cls'] = 'container'
+            if akind == 'nonsr':
+                d['rel'] = None
+        return {'op': op, 'xs': xs, 'as_seq': akind}
+    return {'op': op, 'xs': [_gen_item(r, kind, st, p_bad) for _ in range(r.choice(sizes))], 'as_seq': None}
+
+
 def _gen_slice(r, n):
     def bound():
         if r.random() < 0.3:
@@ -105,7 +121,7 @@ def gen_case(ctx, idx):
             ops.append({'op': 'append', 'x': _gen_item(r, kind, st)})
             est += 1
         elif x < 0.34:
-            ops.append({'op': 'extend', 'xs': [_gen_item(r, kind, st, 0.08) for _ in range(r.choice([0, 1, 2, 2, 3]))]})
+            ops.append(_gen_bulk(r, 'extend', kind, st, 0.08, [0, 1, 2, 2, 3]))
             est += len(ops[-1]['xs'])
         elif x < 0.48:
             ops.append({'op': 'insert', 'pos': r.randint(-est - 2, est + 2), 'x': _gen_item(r, kind, st)})
@@ -127,7 +143,7 @@ def gen_case(ctx, idx):
         elif x < 0.82:
             ops.append({'op': 'delslice', 's': _gen_slice(r, est)})
         elif x < 0.86:
-            ops.append({'op': 'iadd', 'xs': [_gen_item(r, kind, st, 0.1) for _ in range(r.choice([0, 1, 2]))]})
+            ops.append(_gen_bulk(r, 'iadd', kind, st, 0.1, [0, 1, 2]))
             est += len(ops[-1]['xs'])
         elif x < 0.89:
             ops.append({'op': 'pop', 'i': r.choice([None, None, r.randint(-est - 1, est)])})
@@ -314,6 +330,18 @@ def _expected_accept(kind, op, n, objs):
     return None
 
 
+def _bulk_arg(op, objs):
+    from highdicom.sr import ContentSequence
+    items = [objs.get(x) for x in op['xs']]
+    if op.get('as_seq'):
+        is_root, is_sr = KINDS[op['as_seq']]
+        try:
+            return ContentSequence(items, is_root=is_root, is_sr=is_sr)
+        except Exception:  # noqa: BLE001
+            return items
+    return items
+
+
 def _apply(seq, op, objs):
     """Run one operation on the real sequence.  Returns (new seq, error kind or None)."""
     o = op['op']
@@ -321,9 +349,9 @@ def _apply(seq, op, objs):
         if o == 'append':
             seq.append(objs.get(op['x']))
         elif o == 'extend':
-            seq.extend([objs.get(x) for x in op['xs']])
+            seq.extend(_bulk_arg(op, objs))
         elif o == 'iadd':
-            seq += [objs.get(x) for x in op['xs']]
+            seq += _bulk_arg(op, objs)
         elif o == 'insert':
             seq.insert(op['pos'], objs.get(op['x']))
         elif o == 'setitem':
@@ -554,7 +582,7 @@ def run(ctx):
         ctx.case(sample=case if ctx.evaluations % 131 == 0 else None, nontrivial_key=key, kind=case['kind'],
                  via=case['via'], length=len(case['ops']), construct=('ok' if trace[0]['err'] is None else trace[0]['err']))
         for t, op in zip(trace[1:], case['ops']):
-            ctx.hist('ops', op['op'] + ('' if t['err'] is None else '/refused:' + t['err']))
+            ctx.hist('ops', op['op'] + ('[seq:' + op['as_seq'] + ']' if op.get('as_seq') else '') + ('' if t['err'] is None else '/refused:' + t['err']))
         if trace[-1]['obs']:
             ctx.hist('final_len', min(len(trace[-1]['obs']['list']), 12))
         reqs.append(model_request(case))
